@@ -88,6 +88,11 @@ func (ex *Exec) atCall(st *State, in ssa.CallInstruction, before bool, results [
 				c.binds[fmt.Sprintf("arg%d", j)] = TT{T: t, Ty: in.Common().Args[j].Type()}
 			}
 		}
+		if in.Common().IsInvoke() {
+			if rv, ok := fr.env[in.Common().Value].(Term); ok {
+				c.binds["this"] = TT{T: rv, Ty: in.Common().Value.Type()}
+			}
+		}
 		if !before {
 			sig := in.Common().Signature()
 			for j, r := range results {
@@ -138,6 +143,30 @@ func calleeName(c *ssa.CallCommon) string {
 	}
 	if f := c.StaticCallee(); f != nil {
 		return f.Name()
+	}
+	// dynamic call: use the source-level name of the function value
+	v := c.Value
+	for i := 0; i < 4; i++ {
+		switch x := v.(type) {
+		case *ssa.UnOp:
+			v = x.X
+			continue
+		case *ssa.FieldAddr:
+			if st := structOf(x.X.Type().Underlying().(*types.Pointer).Elem()); st != nil {
+				return st.Field(x.Field).Name()
+			}
+		case *ssa.Field:
+			if st := structOf(x.X.Type()); st != nil {
+				return st.Field(x.Field).Name()
+			}
+		case *ssa.Parameter:
+			return x.Name()
+		case *ssa.FreeVar:
+			return x.Name()
+		case *ssa.Alloc:
+			return x.Comment
+		}
+		break
 	}
 	return c.Value.Name()
 }
@@ -360,6 +389,15 @@ func (ex *Exec) callKnown(st *State, site ssa.CallInstruction, cl *ClosureV, arg
 	sel := shortName(fn.String())
 	con := ex.w.cons[sel]
 	sig := fn.Signature
+	if sig.Recv() != nil && len(args) > 0 && ex.w.inRepo(fn) && site != nil {
+		if t, ok := args[0].(Term); ok {
+			if inv := ex.typeInv(st, sig.Recv().Type(), t); inv.S != "true" {
+				if _, isPtr := types.Unalias(sig.Recv().Type()).Underlying().(*types.Pointer); isPtr {
+					ex.oblige(st, "typeinv", "call."+shortSel(sel), site.(ssa.Instruction), inv, "receiver satisfies its type invariant at the call of "+sel)
+				}
+			}
+		}
+	}
 	if con != nil && !con.Inline {
 		var names []string
 		var tys []types.Type
